@@ -69,6 +69,9 @@ def Cst.lexM : Cst → List Lex
   | .lam n c1 _ c2 _ b => .tok n :: ncm c1 ++ .tok [':'] :: ncm c2 ++ b.lexM
   | .un op c _ e => .tok op :: ncm c ++ e.lexM
   | .bin l c1 _ op c2 _ r => l.lexM ++ ncm c1 ++ .tok op :: ncm c2 ++ r.lexM
+  | .ite c1 _ c c2 _ c3 _ t c4 _ c5 _ e =>
+    .tok kwIf :: ncm c1 ++ c.lexM ++ ncm c2 ++ .tok kwThen :: ncm c3 ++ t.lexM ++ ncm c4 ++ .tok kwElse :: ncm c5 ++ e.lexM
+  | .has e c1 _ c2 _ attrs => e.lexM ++ ncm c1 ++ .tok ['?'] :: ncm c2 ++ attrLex0 attrs
 def Items.lexM : Items → List Lex
   | .nil => []
   | .cmt _ t rest => normCmt t :: rest.lexM
@@ -227,6 +230,9 @@ theorem ok_setBefore {e : Expr} (h : e.ok) {b : List Trivia} (hb : TrivOk b) : (
   | lam n c g k bd b' a => exact ⟨h.1, h.2.1, h.2.2.1, hb, h.2.2.2.2⟩
   | un o e g bt b' a => exact ⟨h.1, h.2.1, h.2.2.1, hb, h.2.2.2.2⟩
   | bin o l r x y b' a => exact ⟨h.1, h.2.1, h.2.2.1, hb, h.2.2.2.2⟩
+  | ite c t e cg aic aig btc btg atc tg bec beg aec eg b' a =>
+    exact ⟨h.1, h.2.1, h.2.2.1, h.2.2.2.1, h.2.2.2.2.1, h.2.2.2.2.2.1, h.2.2.2.2.2.2.1, h.2.2.2.2.2.2.2.1, hb, h.2.2.2.2.2.2.2.2.2⟩
+  | has e ats lg rg bq aq b' a => exact ⟨h.1, h.2.1, h.2.2.1, h.2.2.2.1, h.2.2.2.2.1, hb, h.2.2.2.2.2.2⟩
 
 theorem ok_setAfter {e : Expr} (h : e.ok) {a : List Trivia} (ha : TrivOk a) : (e.setAfter a).ok := by
   cases e with
@@ -243,6 +249,9 @@ theorem ok_setAfter {e : Expr} (h : e.ok) {a : List Trivia} (ha : TrivOk a) : (e
   | lam n c g k bd b a' => exact ⟨h.1, h.2.1, h.2.2.1, h.2.2.2.1, ha⟩
   | un o e g bt b a' => exact ⟨h.1, h.2.1, h.2.2.1, h.2.2.2.1, ha⟩
   | bin o l r x y b a' => exact ⟨h.1, h.2.1, h.2.2.1, h.2.2.2.1, ha⟩
+  | ite c t e cg aic aig btc btg atc tg bec beg aec eg b a' =>
+    exact ⟨h.1, h.2.1, h.2.2.1, h.2.2.2.1, h.2.2.2.2.1, h.2.2.2.2.2.1, h.2.2.2.2.2.2.1, h.2.2.2.2.2.2.2.1, h.2.2.2.2.2.2.2.2.1, ha⟩
+  | has e ats lg rg bq aq b a' => exact ⟨h.1, h.2.1, h.2.2.1, h.2.2.2.1, h.2.2.2.2.1, h.2.2.2.2.2.1, ha⟩
 
 theorem ok_addAfter {e : Expr} (h : e.ok) {a : List Trivia} (ha : TrivOk a) : (e.addAfter a).ok :=
   ok_setAfter h (trivOk_append (ok_after h) ha)
@@ -273,6 +282,8 @@ theorem lexOut_setBefore (e : Expr) (hb : e.before = []) (b : List Trivia) (na :
   | lam n c g k bd b' a => simp only [Expr.before] at hb; subst hb; simp [Expr.setBefore, Expr.lexOut]
   | un o e g bt b' a => simp only [Expr.before] at hb; subst hb; simp [Expr.setBefore, Expr.lexOut]
   | bin o l r x y b' a => simp only [Expr.before] at hb; subst hb; simp [Expr.setBefore, Expr.lexOut]
+  | ite c t e cg aic aig btc btg atc tg bec beg aec eg b' a => simp only [Expr.before] at hb; subst hb; simp [Expr.setBefore, Expr.lexOut]
+  | has e ats lg rg bq aq b' a => simp only [Expr.before] at hb; subst hb; simp [Expr.setBefore, Expr.lexOut]
 
 theorem modifyLast_isEmpty' {α : Type} (f : α → α) : ∀ (l : List α), (modifyLast f l).isEmpty = l.isEmpty
   | [] => rfl
@@ -322,6 +333,8 @@ theorem lexOut_addAfter (e : Expr) (hna : e.isAsrtE = false) (ts : List Trivia) 
   | lam n c g k bd b a => simp [Expr.addAfter, Expr.setAfter, Expr.after, Expr.lexOut]
   | un o e g bt b a => simp [Expr.addAfter, Expr.setAfter, Expr.after, Expr.lexOut]
   | bin o l r x y b a => simp [Expr.addAfter, Expr.setAfter, Expr.after, Expr.lexOut]
+  | ite c t e cg aic aig btc btg atc tg bec beg aec eg b a => simp [Expr.addAfter, Expr.setAfter, Expr.after, Expr.lexOut]
+  | has e ats lg rg bq aq b a => simp [Expr.addAfter, Expr.setAfter, Expr.after, Expr.lexOut]
   | asrt c bd x y b a => cases hna
   | leaf k t b a => simp [Expr.addAfter, Expr.setAfter, Expr.after, Expr.lexOut]
   | list v m inn b a => simp [Expr.addAfter, Expr.setAfter, Expr.after, Expr.lexOut]
@@ -345,6 +358,8 @@ theorem lexOut_addAfter_true (e : Expr) (ts : List Trivia) : (e.addAfter ts).lex
   | lam n c g k bd b a => simp [Expr.addAfter, Expr.setAfter, Expr.after, Expr.lexOut]
   | un o e g bt b a => simp [Expr.addAfter, Expr.setAfter, Expr.after, Expr.lexOut]
   | bin o l r x y b a => simp [Expr.addAfter, Expr.setAfter, Expr.after, Expr.lexOut]
+  | ite c t e cg aic aig btc btg atc tg bec beg aec eg b a => simp [Expr.addAfter, Expr.setAfter, Expr.after, Expr.lexOut]
+  | has e ats lg rg bq aq b a => simp [Expr.addAfter, Expr.setAfter, Expr.after, Expr.lexOut]
 
 theorem lexOut_true_of_after_nil (e : Expr) (h : e.after = []) : e.lexOut true = e.lexOut false := by
   cases e with
@@ -361,6 +376,8 @@ theorem lexOut_true_of_after_nil (e : Expr) (h : e.after = []) : e.lexOut true =
   | lam n c g k bd b a => simp only [Expr.after] at h; subst h; simp [Expr.lexOut]
   | un o e g bt b a => simp only [Expr.after] at h; subst h; simp [Expr.lexOut]
   | bin o l r x y b a => simp only [Expr.after] at h; subst h; simp [Expr.lexOut]
+  | ite c t e cg aic aig btc btg atc tg bec beg aec eg b a => simp only [Expr.after] at h; subst h; simp [Expr.lexOut]
+  | has e ats lg rg bq aq b a => simp only [Expr.after] at h; subst h; simp [Expr.lexOut]
 
 theorem modifyLast_isEmpty {α : Type} (f : α → α) : ∀ (l : List α), (modifyLast f l).isEmpty = l.isEmpty
   | [] => rfl
@@ -411,6 +428,8 @@ theorem lexOut_addAfter_proj (strict : Bool) (e : Expr) (ts : List Trivia)
     | lam => cases hA
     | un => cases hA
     | bin => cases hA
+    | ite => cases hA
+    | has => cases hA
 
 theorem modifyLast_addAfter (strict : Bool) : ∀ (items : List Expr) (ts : List Trivia), items ≠ [] →
     (strict = true → lastAsrt items = true → cm ts = []) →
@@ -875,6 +894,33 @@ theorem seqLex_init (its : Items) : seqLex { before := openBefore its } = [] := 
 
 theorem stOk_init (its : Items) : StOk { before := openBefore its } := ⟨trivial, (openBefore_spec its).1⟩
 
+theorem ite_wf {c1 c2 c3 c4 c5 : GC} {g1 g2 g3 g4 g5 : Text} {c t e : Cst}
+    (h : (Cst.ite c1 g1 c c2 g2 c3 g3 t c4 g4 c5 g5 e).wf = true) :
+    (c1 = [] ∧ c2 = [] ∧ c3 = [] ∧ c4 = [] ∧ c5 = []) ∧ (c.wf = true ∧ t.wf = true ∧ e.wf = true) ∧
+      (isGap g1 = true ∧ isGap g2 = true ∧ isGap g3 = true ∧ isGap g4 = true ∧ isGap g5 = true) := by
+  simp only [Cst.wf, Bool.and_eq_true, List.isEmpty_iff] at h
+  obtain ⟨⟨⟨⟨⟨⟨⟨⟨⟨⟨⟨⟨h1, h2⟩, h3⟩, h4⟩, h5⟩, h6⟩, h7⟩, h8⟩, h9⟩, h10⟩, h11⟩, h12⟩, h13⟩ := h
+  exact ⟨⟨h1, h4, h6, h9, h11⟩, ⟨h3, h8, h13⟩, ⟨h2, h5, h7, h10, h12⟩⟩
+
+theorem attrs_solid {attrs : List Text} (hall : attrs.all attrSegOk = true) : ∀ x ∈ attrs, solidT x := by
+  intro x hx
+  have := (List.all_eq_true.mp hall) x hx
+  simp only [attrSegOk, Bool.and_eq_true, Bool.not_eq_true', List.isEmpty_eq_false_iff] at this
+  refine ⟨this.1.1.1, ?_⟩
+  have hl := getLast?_ne_nl_of_no_nl _ this.1.1.2
+  simp [endsWithNL, hl]
+
+theorem has_wf {c1 c2 : GC} {g1 g2 : Text} {e : Cst} {attrs : List Text}
+    (h : (Cst.has e c1 g1 c2 g2 attrs).wf = true) :
+    (c1 = [] ∧ c2 = []) ∧ e.wf = true ∧ (isGap g1 = true ∧ isGap g2 = true) ∧ attrs ≠ [] ∧ ∀ x ∈ attrs, solidT x := by
+  simp only [Cst.wf, Bool.and_eq_true, List.isEmpty_iff, Bool.not_eq_true', List.isEmpty_eq_false_iff] at h
+  obtain ⟨⟨⟨⟨⟨⟨h1, h2⟩, h3⟩, h4⟩, h5⟩, h6⟩, h7⟩ := h
+  exact ⟨⟨h2, h4⟩, h1, ⟨h3, h5⟩, h6, attrs_solid h7⟩
+
+theorem iteFromCst_nil (ce te ee : Expr) (g1 g2 g3 g4 g5 : Text) :
+    iteFromCst ce te ee [] g1 [] g2 [] g3 [] g4 [] g5 = .ite ce te ee g1 [] g1 [] g2 [] g3 [] g4 [] g5 [] [] := by
+  simp [iteFromCst, branchFromCst, collectTrivia, collectGo, flattenGC]
+
 mutual
 theorem cst_parse_spec (strict : Bool) : (c : Cst) → c.wf = true → (strict = true → c.orderOk = true) →
     ∃ e, c.parse = .ok e ∧ e.ok ∧ e.before = [] ∧ e.after = [] ∧
@@ -1121,6 +1167,30 @@ theorem cst_parse_spec (strict : Bool) : (c : Cst) → c.wf = true → (strict =
       ⟨hsop, hlok, hrok, trivOk_nil, trivOk_nil⟩, rfl, rfl, ?_, rfl⟩
     simp only [Expr.lexOut, Cst.lexM, cm_nil, List.nil_append, List.append_nil, if_false, Bool.false_eq_true, ncm, List.map_nil]
     simp only [proj_append, hll, hrl]
+  | .ite c1 g1 c c2 g2 c3 g3 t c4 g4 c5 g5 e, hwf, hord => by
+    obtain ⟨⟨h1, h2, h3, h4, h5⟩, ⟨hcw, htw, hew⟩, _⟩ := ite_wf hwf
+    subst h1; subst h2; subst h3; subst h4; subst h5
+    have hord' : strict = true → c.orderOk = true ∧ t.orderOk = true ∧ e.orderOk = true := by
+      intro hs
+      have := hord hs
+      simp only [Cst.orderOk, Bool.and_eq_true] at this
+      exact ⟨this.1.1, this.1.2, this.2⟩
+    obtain ⟨ce, hpc, hcok, _, _, hcl, _⟩ := cst_parse_spec strict c hcw (fun hs => (hord' hs).1)
+    obtain ⟨te, hpt, htok, _, _, htl, _⟩ := cst_parse_spec strict t htw (fun hs => (hord' hs).2.1)
+    obtain ⟨ee, hpe, heok, _, _, hel, _⟩ := cst_parse_spec strict e hew (fun hs => (hord' hs).2.2)
+    refine ⟨.ite ce te ee g1 [] g1 [] g2 [] g3 [] g4 [] g5 [] [], by simp only [Cst.parse, hpc, hpt, hpe, iteFromCst_nil],
+      ⟨hcok, htok, heok, rfl, rfl, rfl, rfl, rfl, trivOk_nil, trivOk_nil⟩, rfl, rfl, ?_, rfl⟩
+    simp only [Expr.lexOut, Cst.lexM, cm_nil, List.nil_append, List.append_nil, if_false, Bool.false_eq_true, ncm, List.map_nil]
+    simp only [proj_append, hcl, htl, hel]
+  | .has e c1 g1 c2 g2 attrs, hwf, hord => by
+    obtain ⟨⟨h1, h2⟩, hew, _, hne, hsol⟩ := has_wf hwf
+    subst h1; subst h2
+    obtain ⟨ee, hpe, heok, _, _, hel, _⟩ := cst_parse_spec strict e hew (fun hs => by simpa [Cst.orderOk] using hord hs)
+    refine ⟨.has ee attrs g1 g2 (collectTrivia [] g1) (collectTrivia [] g2) [] [], by simp only [Cst.parse, hpe],
+      ⟨heok, hne, hsol, by simp [collectTrivia, collectGo], by simp [collectTrivia, collectGo], trivOk_nil, trivOk_nil⟩,
+      rfl, rfl, ?_, rfl⟩
+    simp only [Expr.lexOut, Cst.lexM, cm_nil, List.nil_append, List.append_nil, if_false, Bool.false_eq_true, ncm, List.map_nil]
+    simp only [proj_append, hel]
 theorem items_parse_spec (strict : Bool) : (its : Items) → ∀ (m : Mode) (cg : Text) (st : SeqSt) (pend : Bool),
     its.wf m cg = true → StOk st →
     (strict = true → its.orderOk m st.prev pend (!st.items.isEmpty) = true ∧ (pend = false → cm st.before = []) ∧
@@ -1368,6 +1438,24 @@ theorem cst_toks_lexM : (c : Cst) → toksL c.lexM = toksL c.lex
     rw [show l.lexM ++ ncm c1 ++ Lex.tok op :: ncm c2 ++ r.lexM = l.lexM ++ ncm c1 ++ [Lex.tok op] ++ ncm c2 ++ r.lexM from by simp,
       show l.lex ++ lexGC c1 ++ Lex.tok op :: lexGC c2 ++ r.lex = l.lex ++ lexGC c1 ++ [Lex.tok op] ++ lexGC c2 ++ r.lex from by simp]
     simp only [toksL_append, toksL_ncm, toksL_lexGC, cst_toks_lexM l, cst_toks_lexM r]
+  | .ite c1 _ c c2 _ c3 _ t c4 _ c5 _ e => by
+    simp only [Cst.lexM, Cst.lex]
+    rw [show Lex.tok kwIf :: ncm c1 ++ c.lexM ++ ncm c2 ++ Lex.tok kwThen :: ncm c3 ++ t.lexM ++ ncm c4 ++
+          Lex.tok kwElse :: ncm c5 ++ e.lexM =
+        [Lex.tok kwIf] ++ ncm c1 ++ c.lexM ++ ncm c2 ++ [Lex.tok kwThen] ++ ncm c3 ++ t.lexM ++ ncm c4 ++
+          [Lex.tok kwElse] ++ ncm c5 ++ e.lexM from by simp,
+      show Lex.tok ['i', 'f'] :: lexGC c1 ++ c.lex ++ lexGC c2 ++ Lex.tok ['t', 'h', 'e', 'n'] :: lexGC c3 ++ t.lex ++ lexGC c4 ++
+          Lex.tok ['e', 'l', 's', 'e'] :: lexGC c5 ++ e.lex =
+        [Lex.tok kwIf] ++ lexGC c1 ++ c.lex ++ lexGC c2 ++ [Lex.tok kwThen] ++ lexGC c3 ++ t.lex ++ lexGC c4 ++
+          [Lex.tok kwElse] ++ lexGC c5 ++ e.lex from by simp [kwIf, kwThen, kwElse]]
+    simp only [toksL_append, toksL_ncm, toksL_lexGC, cst_toks_lexM c, cst_toks_lexM t, cst_toks_lexM e]
+  | .has e c1 _ c2 _ attrs => by
+    simp only [Cst.lexM, Cst.lex]
+    rw [show e.lexM ++ ncm c1 ++ Lex.tok ['?'] :: ncm c2 ++ attrLex0 attrs =
+        e.lexM ++ ncm c1 ++ [Lex.tok ['?']] ++ ncm c2 ++ attrLex0 attrs from by simp,
+      show e.lex ++ lexGC c1 ++ Lex.tok ['?'] :: lexGC c2 ++ attrLex0 attrs =
+        e.lex ++ lexGC c1 ++ [Lex.tok ['?']] ++ lexGC c2 ++ attrLex0 attrs from by simp]
+    simp only [toksL_append, toksL_ncm, toksL_lexGC, cst_toks_lexM e]
 theorem items_toks_lexM : (its : Items) → toksL its.lexM = toksL its.lex
   | .nil => rfl
   | .cmt _ t rest => by
